@@ -8,6 +8,9 @@
 #include <yaclib/async/wait.hpp>
 #include <yaclib/async/wait_for.hpp>
 #include <yaclib/async/wait_until.hpp>
+#include <yaclib/coro/await.hpp>
+#include <yaclib/coro/future.hpp>
+#include <yaclib/coro/on.hpp>
 #include <yaclib/exe/inline.hpp>
 #include <yaclib/exe/manual.hpp>
 #include <yaclib/runtime/fair_thread_pool.hpp>
@@ -73,11 +76,13 @@ class Case final : public sim::CaseBase {
     prod_sleep_ns = kNs[g.Draw(5)];
     id = 1 + g.Noise(1000);
     consumer_first = g.Flip();
+    prod_coroutine = g.Draw(3) == 2;
   }
 
   void Describe(sim::Json& j) const final {
     j.KV("consumer", kConsumerNames[consumer]);
     j.KV("producer", kProducerNames[producer]);
+    j.KV("produced_by", prod_coroutine ? "a coroutine (co_return / throw / stopped executor): completion goes through final_suspend" : "Promise");
     j.KV("value_type", is_void ? "void" : "Tracked");
     if (consumer == kThenExec || consumer == kDetachExec) {
       j.KV("executor", kExecNames[exec]);
@@ -111,6 +116,45 @@ class Case final : public sim::CaseBase {
     } else {
       RunT<Tracked>();
     }
+  }
+
+  // The producer as a coroutine: it waits for a gate the producer thread opens, then completes by co_return / throw /
+  // being refused by a stopped executor. Its completion reaches the consumer through final_suspend (Next / symmetric
+  // transfer) instead of Promise::Set (Here).
+  template <typename V>
+  static yaclib::Future<V, SimError> CoProducer(Case* c, yaclib::Future<void, SimError> gate) {
+    co_await yaclib::Await(gate);
+    sim::RaceWrite(&c->payload_cell, sizeof c->payload_cell);
+    c->payload_cell = c->id;
+    c->set_invoke = sim::Seq();
+    switch (c->producer) {
+      case kSetValue:
+        if constexpr (std::is_void_v<V>) {
+          co_return {};
+        } else {
+          co_return Tracked{c->id};
+        }
+      case kSetError:
+        co_return SimError{c->id};
+      case kSetException:
+        throw sim::TaggedEx{c->id};
+      default:
+        SIM_FAULT("producer_coroutine_stopped");
+        co_await yaclib::On(yaclib::MakeInline(yaclib::StopTag{}));
+        sim::Fail("HARNESS", "a coroutine ran past On(stopped executor)");
+        co_return yaclib::StopTag{};
+    }
+  }
+
+  void OpenGate(yaclib::Promise<void, SimError> gate) {
+    for (int i = 0; i < prod_delay; ++i) {
+      sim::Yield();
+    }
+    if (prod_sleep_ns != 0) {
+      sim::SleepNs(prod_sleep_ns);
+    }
+    std::move(gate).Set();
+    set_return = sim::Seq();
   }
 
   template <typename V>
@@ -329,8 +373,20 @@ class Case final : public sim::CaseBase {
     }
     {
       auto [f, p] = yaclib::MakeContract<V, SimError>();
-      auto produce = [this, pp = std::move(p)]() mutable {
-        Produce<V>(std::move(pp));
+      auto [gate_f, gate_p] = yaclib::MakeContract<void, SimError>();
+      if (prod_coroutine) {
+        SIM_PROBE("producer_is_a_coroutine");
+        f = CoProducer<V>(this, std::move(gate_f));
+        // the contract's own promise is not used in this mode; Detach-like drop of an unused pair
+        auto unused_future_side = std::move(p);
+        (void)unused_future_side;
+      }
+      auto produce = [this, pp = std::move(p), gp = std::move(gate_p)]() mutable {
+        if (prod_coroutine) {
+          OpenGate(std::move(gp));
+        } else {
+          Produce<V>(std::move(pp));
+        }
       };
       auto consume = [this, ff = std::move(f), &proxy]() mutable {
         Consume<V>(std::move(ff), &proxy);
@@ -410,6 +466,7 @@ class Case final : public sim::CaseBase {
     }
   }
 
+  bool prod_coroutine = false;
   int consumer = 0, producer = 0, exec = 0, ready_samples = 0, cons_delay = 0, prod_delay = 0;
   bool is_void = false, tail_get = false, consumer_first = false;
   std::uint32_t id = 1, timeout_ns = 0, prod_sleep_ns = 0;
